@@ -343,10 +343,15 @@ theorem padSer_wrote (o : Opts) (n : Nat) (cap : Nat) (buf : Buf) (off : Nat) (h
   · by_cases h : off % 8 ≠ 0
     · have e1 : (8 - off % 8) % 256 = padLen 8 off := by simp only [padLen]; omega
       have hp : padLen 8 off ≤ 64 := by simp only [padLen]; omega
+      have hp0 : padLen 8 off > 0 := by simp only [padLen]; omega
+      have hp8 : (off + padLen 8 off) % 8 = 0 := by simp only [padLen]; omega
       simp only [show (8 : Nat) > 1 by decide, h, ne_eq, not_false_eq_true, and_self, if_true, e1]
+      rw [assertC_ok o hp0]
       obtain ⟨r, hr, hwr⟩ := setUxx_wrote o.little buf cap off 0 (padLen 8 off) (zeros (padLen 8 off)) hcap
         (by simpa [padTo] using hroom) hp (by simp) (by intro i _; simp [gb_zeros])
       rw [hr]
+      dsimp only
+      rw [assertC_ok o hp8]
       exact ⟨_, rfl, hwr⟩
     · have e : padLen 8 off = 0 := by simp only [padLen]; omega
       simp only [h, and_false, if_false, e, zeros, List.replicate_zero, Nat.add_zero]
